@@ -252,6 +252,16 @@ func (t *scStringType) Parameters() []px.Value {
 	return t.size.Parameters()
 }
 
+// ToKey writes the key of a String type that has the value as its parameter (the value is not
+// included in Parameters)
+func (t *vcStringType) ToKey(b *bytes.Buffer) {
+	b.WriteByte(1)
+	b.WriteByte(HkType)
+	b.WriteString(t.Name())
+	appendKey(b, stringValue(t.value))
+	b.WriteByte(HkEnd)
+}
+
 func (t *stringType) ReflectType(c px.Context) (reflect.Type, bool) {
 	return reflect.TypeOf(`x`), true
 }
